@@ -261,12 +261,13 @@ struct Worker {
     stdin: ChildStdin,
     rx: Receiver<String>,
     errfile: std::path::PathBuf,
+    slot: usize,
 }
 
-fn spawn_worker() -> Worker {
+fn spawn_worker(slot: usize) -> Worker {
     let exe = std::env::current_exe().expect("current_exe");
     let dir = std::env::var("VERIF_WORK").unwrap_or_else(|_| std::env::temp_dir().to_string_lossy().to_string());
-    let errfile = std::path::Path::new(&dir).join(format!("c05-worker-{}.stderr", std::process::id()));
+    let errfile = std::path::Path::new(&dir).join(format!("c05-worker-{}-{}.stderr", std::process::id(), slot));
     let errf = std::fs::File::create(&errfile).expect("stderr file");
     let mut child = Command::new("sh")
         .arg("-c")
@@ -295,7 +296,7 @@ fn spawn_worker() -> Worker {
             }
         }
     });
-    Worker { child, stdin, rx, errfile }
+    Worker { child, stdin, rx, errfile, slot }
 }
 
 /// the stage the worker was in when it died (it announces every stage on stderr)
@@ -369,58 +370,101 @@ fn main() {
         return;
     }
     let budget = Duration::from_secs(if a.thorough { 40 } else { 20 });
+    // the cases are independent (each generated from (seed, index) alone): shard them over several
+    // worker processes; the lines are printed in index order
+    let jobs: usize = std::env::var("C05_JOBS").ok().and_then(|v| v.parse().ok()).unwrap_or_else(|| {
+        std::thread::available_parallelism().map(|n| n.get()).unwrap_or(4).clamp(1, 12)
+    });
+    let indices: Vec<u64> = case_indices(&a).collect();
+    let jobs = jobs.min(indices.len().max(1));
+    let (seed, thorough) = (a.seed, a.thorough);
+    let mut handles = Vec::new();
+    for slot in 0..jobs {
+        let mine: Vec<u64> = indices.iter().copied().skip(slot).step_by(jobs).collect();
+        handles.push(std::thread::spawn(move || {
+            let mut lines: Vec<(u64, String)> = Vec::new();
+            let mut w = spawn_worker(slot);
+            for i in mine {
+                let c = gen_case(seed, i, thorough);
+                lines.push((i, run_case(&mut w, i, &c, budget)));
+            }
+            let errfile = w.errfile.clone();
+            drop(w.stdin);
+            let _ = w.child.wait();
+            let _ = std::fs::remove_file(errfile);
+            lines
+        }));
+    }
+    let mut all: Vec<(u64, String)> = handles.into_iter().flat_map(|h| h.join().expect("shard thread")).collect();
+    all.sort_by_key(|x| x.0);
+    // a case that missed its budget twice while the other shards were running is judged once more alone,
+    // with a ten-fold budget: only then is it a hang (a loaded machine must not produce the verdict)
+    if jobs > 1 {
+        for (i, l) in all.iter_mut() {
+            if l.ends_with(":hang") {
+                let c = gen_case(seed, *i, thorough);
+                let mut w = spawn_worker(jobs);
+                *l = run_case(&mut w, *i, &c, budget * 10);
+                let errfile = w.errfile.clone();
+                drop(w.stdin);
+                let _ = w.child.kill();
+                let _ = w.child.wait();
+                let _ = std::fs::remove_file(errfile);
+            }
+        }
+    }
     let mut out = Out::new();
-    let mut w = spawn_worker();
-    for i in case_indices(&a) {
-        let c = gen_case(a.seed, i, a.thorough);
-        let hexd = hex(&c.data);
-        let t0 = std::time::Instant::now();
-        let sent = writeln!(w.stdin, "{} {} {}", c.kind, c.arg, hexd).and_then(|_| w.stdin.flush());
-        let outcome = if sent.is_err() {
-            let d = how_died(&mut w);
-            w = spawn_worker();
-            d
-        } else {
-            match w.rx.recv_timeout(budget) {
-                Ok(l) => l,
-                Err(RecvTimeoutError::Timeout) => {
-                    // the machine is shared: give the case a second, longer chance before calling it a hang
-                    let _ = w.child.kill();
-                    let _ = w.child.wait();
-                    let st = last_stage(&std::fs::read_to_string(&w.errfile).unwrap_or_default());
-                    w = spawn_worker();
-                    let again = writeln!(w.stdin, "{} {} {}", c.kind, c.arg, hexd).and_then(|_| w.stdin.flush());
-                    match (again, w.rx.recv_timeout(budget * 4)) {
-                        (Ok(()), Ok(l)) => l,
-                        (Ok(()), Err(RecvTimeoutError::Disconnected)) => {
-                            let d = how_died(&mut w);
-                            w = spawn_worker();
-                            d
-                        }
-                        _ => {
-                            let _ = w.child.kill();
-                            let _ = w.child.wait();
-                            w = spawn_worker();
-                            format!("{}:hang", st)
-                        }
+    for (_, l) in all {
+        out.line(&l);
+    }
+}
+
+/// one case on worker `w` (respawned in place when it dies or hangs): the case line
+fn run_case(w: &mut Worker, i: u64, c: &Case, budget: Duration) -> String {
+    let slot = w.slot;
+    let hexd = hex(&c.data);
+    let t0 = std::time::Instant::now();
+    let sent = writeln!(w.stdin, "{} {} {}", c.kind, c.arg, hexd).and_then(|_| w.stdin.flush());
+    let outcome = if sent.is_err() {
+        let d = how_died(w);
+        *w = spawn_worker(slot);
+        d
+    } else {
+        match w.rx.recv_timeout(budget) {
+            Ok(l) => l,
+            Err(RecvTimeoutError::Timeout) => {
+                // the machine is shared: give the case a second, longer chance before calling it a hang
+                let _ = w.child.kill();
+                let _ = w.child.wait();
+                let st = last_stage(&std::fs::read_to_string(&w.errfile).unwrap_or_default());
+                *w = spawn_worker(slot);
+                let again = writeln!(w.stdin, "{} {} {}", c.kind, c.arg, hexd).and_then(|_| w.stdin.flush());
+                match (again, w.rx.recv_timeout(budget * 4)) {
+                    (Ok(()), Ok(l)) => l,
+                    (Ok(()), Err(RecvTimeoutError::Disconnected)) => {
+                        let d = how_died(w);
+                        *w = spawn_worker(slot);
+                        d
+                    }
+                    _ => {
+                        let _ = w.child.kill();
+                        let _ = w.child.wait();
+                        *w = spawn_worker(slot);
+                        format!("{}:hang", st)
                     }
                 }
-                Err(RecvTimeoutError::Disconnected) => {
-                    let d = how_died(&mut w);
-                    w = spawn_worker();
-                    d
-                }
             }
-        };
-        if std::env::var("C05_TIMING").is_ok() {
-            eprintln!("#{} {} {} {}ms {}", i, c.kind, c.arg, t0.elapsed().as_millis(), &outcome[..outcome.len().min(60)]);
+            Err(RecvTimeoutError::Disconnected) => {
+                let d = how_died(w);
+                *w = spawn_worker(slot);
+                d
+            }
         }
-        let shown = if c.data.len() <= 3000 { hexd } else { format!("big:{}", c.data.len()) };
-        let muts = if c.muts.is_empty() { "valid".to_string() } else { c.muts.join("+") };
-        out.line(&format!("#{} {} {} {} {} {}", i, c.kind, c.arg, muts, shown, outcome));
+    };
+    if std::env::var("C05_TIMING").is_ok() {
+        eprintln!("#{} {} {} {}ms {}", i, c.kind, c.arg, t0.elapsed().as_millis(), &outcome[..outcome.len().min(60)]);
     }
-    let errfile = w.errfile.clone();
-    drop(w.stdin);
-    let _ = w.child.wait();
-    let _ = std::fs::remove_file(errfile);
+    let shown = if c.data.len() <= 3000 { hexd } else { format!("big:{}", c.data.len()) };
+    let muts = if c.muts.is_empty() { "valid".to_string() } else { c.muts.join("+") };
+    format!("#{} {} {} {} {} {}", i, c.kind, c.arg, muts, shown, outcome)
 }
